@@ -112,7 +112,7 @@ def expected(stream_frames, k):
     return items, error, closed_by_frame
 
 
-def run_one_cut(res, rng, prog, S, k, transport, variant, label):
+def run_one_cut(res, rng, prog, S, k, transport, variant, label, user_closes=None):
     from execnet.gateway_base import RemoteError
     from vlib import pairs
 
@@ -236,6 +236,15 @@ def run_one_cut(res, rng, prog, S, k, transport, variant, label):
         for c in backlog:
             attach(c)
         in_backlog.wait(0.2)
+    m_uc = f"user-close-during-connection-loss-raised:{transport}"
+    if user_closes is not None and chans.get(user_closes) is not None:
+        # a user thread closes one of its channels just while the connection goes down (it cannot know): its close
+        # message may still get out, the un-registration then runs next to the receiver thread's own sweep
+        uc = threading.Thread(target=lambda: _quiet_close(chans[user_closes], res, m_uc, label), daemon=True)
+        threads.append(uc)
+        uc.start()
+        if rng.random() < 0.5:
+            time.sleep(0.0003)
     if transport == "tcp":
         if variant == "reset":
             sp.sock.setsockopt(socket.SOL_SOCKET, socket.SO_LINGER, struct.pack("ii", 1, 0))
@@ -267,10 +276,16 @@ def run_one_cut(res, rng, prog, S, k, transport, variant, label):
         blocked |= t.is_alive()
     gw.join(5)
     want_items, want_err, closed_by = expected(prog["frames"], k)
+    if user_closes is not None:
+        closed_by = dict(closed_by)
+        closed_by.setdefault(user_closes, "local close")
     m = lambda name: f"{name}:{transport}"
     # A TCP reset makes the kernel discard bytes it had received but not yet handed to the survivor:
     # what "had arrived" is then some shorter prefix S[:k'], k' <= k.  Any such prefix is accepted.
-    lossy = transport == "tcp" and variant == "reset"
+    # The same can happen after an orderly close of both directions when the survivor still writes something (a close
+    # message for a dropped channel, an error report): the dead peer's kernel answers with a reset.  Strict delivery of
+    # every complete frame is demanded on pipes and on TCP connections whose peer only shut down its sending side.
+    lossy = transport == "tcp" and variant in ("reset", "both")
     if blocked:
         res.violation(m("waiter-blocked-after-connection-loss"), f"{label}: logs={short(logs, 400)}")
     for c in prog["cids"]:
@@ -283,7 +298,7 @@ def run_one_cut(res, rng, prog, S, k, transport, variant, label):
             _p.wait_until(lambda: END in lg["cb"], 15)
             got = list(lg["cb"])
             res.count("waiters_checked")
-            if got != [wi[0], END]:
+            if got != [wi[0], END] and not (lossy and got == [END]):
                 res.violation(m("failing-callback-transcript-wrong"), f"{label}: channel {c}: got {short(got)} want first item + endmarker")
             for w in lg["wait"]:
                 if w not in ("returned", "EOFError", "RemoteError"):
@@ -295,10 +310,13 @@ def run_one_cut(res, rng, prog, S, k, transport, variant, label):
             _p.wait_until(lambda: END in lg["cb"], 15)
             got = list(lg["cb"])
             res.count("waiters_checked")
-            if got.count(END) != 1 or got[-1:] != [END]:
+            # (the order between a *local* close's endmarker and an item the receiver thread is just handing over is not
+            #  part of the property: for the channel the user closed only "exactly once" is demanded)
+            if got.count(END) != 1 or (got[-1:] != [END] and c != user_closes):
                 res.violation(m("callback-endmarker-after-connection-loss"), f"{label}: channel {c}: endmarker x{got.count(END)}, last={short(got[-1:])}")
-            gi = [g for g in got if g != END]
-            if (gi != wi[:len(gi)]) if lossy else (gi != wi):
+            gi = [g for g in got if not (g is END or (g == END and type(g) is type(END)))]
+            # (a channel its user closed meanwhile legitimately drops what arrives after that close)
+            if (gi != wi[:len(gi)]) if (lossy or c == user_closes) else (gi != wi):
                 res.violation(m("callback-items-differ-from-complete-frames"), f"{label}: channel {c}: got {len(got)} want {len(wi)}")
         else:
             allitems = []
@@ -472,6 +490,15 @@ def run_late_new(spec):
     return res
 
 
+def _quiet_close(ch, res, mech, label):
+    try:
+        ch.close()
+    except OSError:
+        pass
+    except BaseException as e:  # noqa
+        res.violation(mech + ":" + type(e).__name__, f"{label}: {e!r}")
+
+
 def run_finish_sweep(spec):
     """the end of receiving itself, at line granularity: one pre-emption (or line noise) inside the code that wakes the
     waiters, closes the channels and records why the connection ended, while several receivers and waitclose callers of
@@ -486,6 +513,7 @@ def run_finish_sweep(spec):
     try:
         lines = imodel.function_lines(gb.BaseGateway._thread_receiver, gb.ChannelFactory._finished_receiving, gb.ChannelFactory._local_close,
                                       gb.ChannelFactory._no_longer_opened, gb.Channel.waitclose, gb.Channel.receive, gb.Channel._getremoteerror)
+        nlo_lines = set(imodel.function_lines(gb.ChannelFactory._no_longer_opened))
         todo = [(ln, k) for ln in lines for k in spec["ks"]]
         todo = [t for i, t in enumerate(todo) if i % spec["parts"] == spec["part"]] + [(None, i) for i in range(spec["noise_runs"])]
         for ln, k in todo:
@@ -506,11 +534,21 @@ def run_finish_sweep(spec):
                 pre.restart()
                 pre.set_sweep(ln[0], ln[1], k, stall=0.05)
                 label = f"end of receiving, stall at line {ln[1]} hit {k}: cut={cut}/{len(S)} frames={short([(c, i, len(p)) for c, i, p in prog['frames']], 160)}"
+            uc = rng.choice([None] + [c for c in prog["cids"] if prog["modes"][c]["mode"] == "callback"])
+            if ln is not None and ln in nlo_lines:
+                # stalls inside the un-registration itself: exactly one channel has a callback and the user closes that one,
+                # so that both threads are un-registering the same entry
+                for c in prog["cids"]:
+                    prog["modes"][c]["mode"] = "receive"
+                uc = prog["cids"][k % len(prog["cids"])]
+                prog["modes"][uc]["mode"] = "callback"
             try:
-                run_one_cut(res, rng, prog, S, cut, "pipe", "both", label)
+                run_one_cut(res, rng, prog, S, cut, "pipe", "both", label + (f" user closes channel {uc} meanwhile" if uc else ""), user_closes=uc)
             except BaseException as e:
                 res.violation(f"cut-run-raised:{type(e).__name__}", f"{label}: {e}")
             pre.off()
+            if uc:
+                res.count("cuts_with_concurrent_user_close")
             res.count("finish_sweep_runs")
             if ln is not None and pre.fired:
                 res.count("sweep_fired")
